@@ -121,6 +121,44 @@ pub fn catch<T>(f: impl FnOnce() -> T) -> Result<T, Panic> {
     }
 }
 
+/// Shared-memory heartbeat (8 bytes: current case id + 1) so that the orchestrator can
+/// attribute an abnormal process end to a case.
+static HB_PTR: std::sync::atomic::AtomicPtr<u64> = std::sync::atomic::AtomicPtr::new(std::ptr::null_mut());
+
+pub fn open_heartbeat(path: &str) {
+    use std::os::unix::io::AsRawFd;
+    let f = match std::fs::OpenOptions::new().read(true).write(true).create(true).truncate(true).open(path) {
+        Ok(f) => f,
+        Err(_) => return,
+    };
+    if f.set_len(4096).is_err() {
+        return;
+    }
+    let p = unsafe { libc::mmap(std::ptr::null_mut(), 4096, libc::PROT_READ | libc::PROT_WRITE, libc::MAP_SHARED, f.as_raw_fd(), 0) };
+    if p != libc::MAP_FAILED {
+        HB_PTR.store(p as *mut u64, Ordering::Relaxed);
+    }
+}
+
+/// Announce the case about to run (watchdog attribution + heartbeat file).
+pub fn begin_case(k: u64) {
+    WATCH_CASE.store(k, Ordering::Relaxed);
+    let p = HB_PTR.load(Ordering::Relaxed);
+    if !p.is_null() {
+        unsafe { std::ptr::write_volatile(p, k + 1) };
+    }
+}
+
+pub fn limit_memory(mb: u64) {
+    if mb == 0 {
+        return;
+    }
+    let lim = libc::rlimit { rlim_cur: mb << 20, rlim_max: mb << 20 };
+    unsafe {
+        libc::setrlimit(libc::RLIMIT_AS, &lim);
+    }
+}
+
 pub static WATCH_IN_CALL: AtomicBool = AtomicBool::new(false);
 pub static WATCH_CALLS: AtomicU64 = AtomicU64::new(0);
 pub static WATCH_CASE: AtomicU64 = AtomicU64::new(0);
@@ -137,15 +175,25 @@ fn process_cpu_secs() -> f64 {
 /// CPU seconds, print a HANG line naming the case and exit with status 86. The orchestrator
 /// turns that into a violation for the properties that state "returns" (C02, C05, C13, C14) and
 /// into "inconclusive" elsewhere.
-pub fn start_watchdog(limit_s: f64) {
+pub fn start_watchdog(limit_s: f64, case_limit_s: f64) {
     std::thread::spawn(move || {
         let mut last_calls = u64::MAX;
         let mut cpu_at_change = process_cpu_secs();
+        let mut last_case = u64::MAX;
+        let mut cpu_at_case = process_cpu_secs();
         loop {
             std::thread::sleep(std::time::Duration::from_millis(500));
             let calls = WATCH_CALLS.load(Ordering::Relaxed);
             let in_call = WATCH_IN_CALL.load(Ordering::Relaxed);
             let cpu = process_cpu_secs();
+            let case = WATCH_CASE.load(Ordering::Relaxed);
+            if case != last_case {
+                last_case = case;
+                cpu_at_case = cpu;
+            } else if cpu - cpu_at_case > case_limit_s {
+                println!("SLOW case={} cpu_in_case_s={:.0}", case, cpu - cpu_at_case);
+                std::process::exit(87);
+            }
             if calls != last_calls || !in_call {
                 last_calls = calls;
                 cpu_at_change = cpu;
